@@ -43,6 +43,24 @@ _char_pred('is_ascii_punctuation', lambda ch: ch.isascii() and (33 <= ord(ch) <=
 _char_pred('is_ascii', lambda ch: ord(ch) < 128, lambda c: z3.ULT(c, BVV(128, 32)))
 
 
+def _u8_pred(name, pred_concrete, pred_sym):
+    def f(it, args, callee):
+        c = deref_all(args[0])
+        if not is_sym(c):
+            return pred_concrete(chr(c))
+        return simp(pred_sym(z3.ZeroExt(24, c)))
+    for prefix in ('core::num::<impl u8>::', 'u8::'):
+        M.MODELS[prefix + name] = f
+
+
+_u8_pred('is_ascii_digit', lambda ch: ch.isascii() and ch.isdigit(), lambda c: _rng(c, 0x30, 0x39))
+_u8_pred('is_ascii_alphabetic', lambda ch: ch.isascii() and ch.isalpha(), lambda c: z3.Or(_rng(c, 0x41, 0x5A), _rng(c, 0x61, 0x7A)))
+_u8_pred('is_ascii_alphanumeric', lambda ch: ch.isascii() and ch.isalnum(),
+         lambda c: z3.Or(_rng(c, 0x30, 0x39), _rng(c, 0x41, 0x5A), _rng(c, 0x61, 0x7A)))
+_u8_pred('is_ascii_whitespace', lambda ch: ch in ' \t\n\x0c\r', lambda c: z3.Or(c == 0x20, c == 0x09, c == 0x0A, c == 0x0C, c == 0x0D))
+_u8_pred('is_ascii', lambda ch: ord(ch) < 128, lambda c: z3.ULT(c, BVV(128, 32)))
+
+
 def _unicode_pred(name, py):
     def f(it, args, callee):
         c = deref_all(args[0])
